@@ -325,6 +325,57 @@ func worldRelease(w *World) {
 		}
 	}
 
+	// hand-over: the session gives its proxies up explicitly, another session registers the identical set,
+	// then the first session ends by some path; nothing the second session now holds may be touched
+	if w.KnobBool("handover", 60) {
+		for _, s := range set {
+			cur.CloseProxy(mstr(s.f, "proxy_name"))
+		}
+		syncCtl(cur)
+		heir := env.newClient("cy", 1)
+		if rr, err := heir.login(""); err == nil && mstr(rr, "error") == "" {
+			if hbTimeout > 0 {
+				keepAlive(heir, make(chan struct{}))
+			}
+			if regAll(heir, "handover", 0) {
+				w.Probe("release.handover")
+				if r.Intn(2) == 0 {
+					cur.Drop()
+				} else {
+					w.Net.CrashNode(cur.Node)
+				}
+				close(stopKA)
+				stopKA = make(chan struct{})
+				time.Sleep(3 * time.Second)
+				w.Check("C10.other-sessions-resources-untouched")
+				stranger := env.newClient("zz", 0)
+				stranger.login("")
+				if hbTimeout > 0 {
+					keepAlive(stranger, make(chan struct{}))
+				}
+				for _, s := range set {
+					// the heir still owns every name: a stranger must be refused
+					rr, got := stranger.register(s.f)
+					if got && mstr(rr, "error") == "" {
+						viol("bystander", "resource-of-other-session-released-"+s.kind, "session A closed %s explicitly, session B registered the identical proxy, then A ended: a third session could register it too (%v)", s.kind, rr)
+						stranger.CloseProxy(mstr(s.f, "proxy_name"))
+					}
+					switch s.kind {
+					case "tcp":
+						if res := env.probeTCP("10.0.0.1:20001", 8*time.Second); res.ServedBy != heir.Name+"/t1" {
+							viol("bystander", "resource-of-other-session-released-tcp-port", "after A ended, B's tcp proxy no longer serves: %q %v", res.ServedBy, res.Err)
+						}
+					case "http":
+						if sb, st, err := env.probeHTTP("a.example.test", "/x/1", 8*time.Second); sb != heir.Name+"/h1" {
+							viol("bystander", "resource-of-other-session-released-http-route", "after A ended, B's http route no longer serves: %q status %d %v", sb, st, err)
+						}
+					}
+				}
+				cur = heir
+			}
+		}
+	}
+
 	// registrations that fail part-way release what they had already taken
 	if w.KnobBool("partial", 70) {
 		// (a) second domain conflicts
